@@ -48,7 +48,7 @@ def cases(draw, tier="quick"):
     fields = [POOL[i] for i in idx]
     if draw(st.sampled_from([False, False, True])):
         fields = [f for f in fields if not f.startswith("Y(")] or ["phi"]
-    spec = draw(plotgen.plot_specs(thin=True, max_cells=1200 if tier == "quick" else 4000, fields=fields,
+    spec = draw(plotgen.plot_specs(thin=True, level_prefix=True, max_cells=1200 if tier == "quick" else 4000, fields=fields,
                                    payload_kinds=("random", "special", "sparse", "sparse")))
     spec["time"] = draw(st.sampled_from(TIMES))
     opts = draw(st.sampled_from([dict(), dict(min_max=True), dict(finest_lv=True), dict(min_max=True, finest_lv=True),
